@@ -3,4 +3,5 @@ package main
 // one import per property package; each registers itself in init().
 import (
 	_ "verif/c08"
+	_ "verif/c15"
 )
